@@ -332,6 +332,7 @@ def gen_vector(repo):
     m.translate_list_method("Vector", "__setitem__", "setitem")
     m.translate_list_method("Vector", "insert", "insert", index_is_int=True)
     m.translate_list_method("Vector", "__delitem__", "delitem")
+    m.translate_vector_ctor("Vector", "ctor_validate")
     return m
 
 
